@@ -105,6 +105,17 @@ def gen_tree_history(rng, with_handlers, foreign):
                 elif r < 0.88: acts.append(act_token(rng.choice("hs"), tgt))
                 elif r < 0.94: acts.append("f")
                 else: acts.append("x")
+            if ev == "mouse" and ret == 1:
+                # a claiming mouse handler that drops two windows can make a dying parent take the reference
+                # _handle_mouse returns for the claim (known finding cascade_steals_claim): only the corpus probe does
+                seen = False
+                kept = []
+                for x in acts:
+                    if x[0] == "u":
+                        if seen: continue
+                        seen = True
+                    kept.append(x)
+                acts = kept
             emit("bind %d %s %d %s" % (w, ev, ret, " ".join(acts)) if acts else "bind %d %s %d" % (w, ev, ret))
             bound.append(w)
     for _ in range(nops):
